@@ -194,6 +194,8 @@ class ManifestContext:
             period.start = start
             self.periods.append(period)
             start += period.duration
+        # update_timing() left the duration of the last period's stream here
+        self.mediaDuration = start
 
     def create_all_live_periods(self,
                                 multi_period: models.MultiPeriodStream) -> None:
